@@ -969,4 +969,237 @@ theorem peekitem_grow {x : Cache} (hd : 0 < x.depth) (E : Externals) (now : Int)
     (last et tg : Bool) : Grow x (x.peekitem E now last et tg).1 :=
   (peekitemLoop_GG E now last et tg _ x ⟨hd, Grow.refl x⟩).grow
 
+/-! ### the bulk removals: paging loops over `deletePage` -/
+
+theorem pageBody_q4 (page : List Row) (sel : String) (x : Cache) : Q4 x (pageBody page sel x).s := by
+  have h0 := Q4.refl x
+  unfold pageBody
+  simp only
+  q4_auto
+
+/-- one page of `_select_delete` inside a block: the rows go, their files join `pending` -/
+theorem BG.page {a x : Cache} (h : BG a x) (page : List Row) (sel : String)
+    (hp : ∀ r ∈ page, r ∈ x.rows) : BG a (x.deletePage page sel) := by
+  rw [deletePage_eq]
+  have hq := pageBody_q4 page sel x
+  obtain ⟨q1, -⟩ := transact_inblock_q4 x h.pos (pageBody page sel) none hq
+  obtain ⟨cl, hP, hS⟩ := h.bi
+  refine ⟨by rw [q1]; exact h.pos, ?_, h.grow.trans (transact_grow x h.pos _ none hq)⟩
+  apply transact_BI' _ h.pos
+  · exact hq
+  · left
+    refine ⟨pageBody_ok _ _ _, cl, ?_, hS, ?_⟩
+    · rw [pageBody_cleanup]
+      unfold pageBody
+      simp only
+      split
+      · rename_i he
+        have : page = [] := List.isEmpty_iff.1 he
+        subst this
+        simpa using hP
+      · simp only [fcore_logSql]
+        have := fPI_delIn (s := x.logSql sel) (cl := cl) (by fcore_simp; exact hP) page hp
+        exact this.cl_congr (by intro f; simp [or_comm])
+    · rw [pageBody_cleanup]
+      intro f hf
+      obtain ⟨r, hr, e⟩ := List.mem_map.1 hf
+      exact hP.ref_lt (c := fcore x) (hp r hr) e
+
+theorem GG.page {a x : Cache} (h : GG a x) (page : List Row) (sel : String) : GG a (x.deletePage page sel) := by
+  rw [deletePage_eq]
+  exact h.tq _ (pageBody_q4 page sel x)
+
+theorem clearLoop_BG {a : Cache} : ∀ (fuel : Nat) (s : Cache) (cur n : Nat), BG a s →
+    BG a (clearLoop fuel s cur n).1 := by
+  intro fuel
+  induction fuel with
+  | zero => intro s cur n h; exact h
+  | succ k ih =>
+    intro s cur n h
+    unfold clearLoop
+    simp only
+    have h1 := h.page ((s.rows.filter (fun r => r.rowid > cur)).take s.cfg.page) "pageRowid"
+      (fun r hr => (List.mem_filter.1 (List.mem_of_mem_take hr)).1)
+    split
+    · exact h1
+    · exact ih _ _ _ h1
+
+theorem clearLoop_GG {a : Cache} : ∀ (fuel : Nat) (s : Cache) (cur n : Nat), GG a s →
+    GG a (clearLoop fuel s cur n).1 := by
+  intro fuel
+  induction fuel with
+  | zero => intro s cur n h; exact h
+  | succ k ih =>
+    intro s cur n h
+    unfold clearLoop
+    simp only
+    have h1 := h.page ((s.rows.filter (fun r => r.rowid > cur)).take s.cfg.page) "pageRowid"
+    split
+    · exact h1
+    · exact ih _ _ _ h1
+
+theorem clear_BG {x : Cache} (hd : 0 < x.depth) (h : BI x) : BG x (x.clear).1 := by
+  unfold clear; simp only
+  exact clearLoop_BG _ _ _ _ (BG.start hd h)
+
+theorem clear_grow {x : Cache} (hd : 0 < x.depth) : Grow x (x.clear).1 := by
+  unfold clear; simp only
+  exact (clearLoop_GG _ _ _ _ ⟨hd, Grow.refl x⟩).grow
+
+theorem evictLoop_BG (tag : SqlVal) {a : Cache} : ∀ (fuel : Nat) (s : Cache) (cur n : Nat), BG a s →
+    BG a (evictLoop tag fuel s cur n).1 := by
+  intro fuel
+  induction fuel with
+  | zero => intro s cur n h; exact h
+  | succ k ih =>
+    intro s cur n h
+    unfold evictLoop
+    simp only
+    have h1 := h.page ((s.rows.filter (fun r => r.tag.eqv tag && r.rowid > cur)).take s.cfg.page) "pageTag"
+      (fun r hr => (List.mem_filter.1 (List.mem_of_mem_take hr)).1)
+    split
+    · exact h1
+    · exact ih _ _ _ h1
+
+theorem evictLoop_GG (tag : SqlVal) {a : Cache} : ∀ (fuel : Nat) (s : Cache) (cur n : Nat), GG a s →
+    GG a (evictLoop tag fuel s cur n).1 := by
+  intro fuel
+  induction fuel with
+  | zero => intro s cur n h; exact h
+  | succ k ih =>
+    intro s cur n h
+    unfold evictLoop
+    simp only
+    have h1 := h.page ((s.rows.filter (fun r => r.tag.eqv tag && r.rowid > cur)).take s.cfg.page) "pageTag"
+    split
+    · exact h1
+    · exact ih _ _ _ h1
+
+theorem evict_BG {x : Cache} (hd : 0 < x.depth) (h : BI x) (tag : SqlVal) : BG x (x.evict tag).1 := by
+  unfold evict; simp only
+  exact evictLoop_BG tag _ _ _ _ (BG.start hd h)
+
+theorem evict_grow {x : Cache} (hd : 0 < x.depth) (tag : SqlVal) : Grow x (x.evict tag).1 := by
+  unfold evict; simp only
+  exact (evictLoop_GG tag _ _ _ _ ⟨hd, Grow.refl x⟩).grow
+
+theorem expireLoop_BG (now : Int) {a : Cache} : ∀ (fuel : Nat) (s : Cache) (lo : Option Int) (n : Nat), BG a s →
+    BG a (expireLoop now fuel s lo n).1 := by
+  intro fuel
+  induction fuel with
+  | zero => intro s lo n h; exact h
+  | succ k ih =>
+    intro s lo n h
+    unfold expireLoop
+    simp only
+    split
+    · apply h.page
+      intro r hr
+      exact (List.mem_filter.1 (mem_of_mem_take_isort hr)).1
+    · apply ih
+      apply h.page
+      intro r hr
+      exact (List.mem_filter.1 (mem_of_mem_take_isort hr)).1
+
+theorem expireLoop_GG (now : Int) {a : Cache} : ∀ (fuel : Nat) (s : Cache) (lo : Option Int) (n : Nat), GG a s →
+    GG a (expireLoop now fuel s lo n).1 := by
+  intro fuel
+  induction fuel with
+  | zero => intro s lo n h; exact h
+  | succ k ih =>
+    intro s lo n h
+    unfold expireLoop
+    simp only
+    split
+    · exact h.page _ _
+    · exact ih _ _ _ (h.page _ _)
+
+theorem expire_BG {x : Cache} (hd : 0 < x.depth) (h : BI x) (now : Int) : BG x (x.expire now).1 := by
+  unfold expire; simp only
+  exact expireLoop_BG now _ _ _ _ (BG.start hd h)
+
+theorem expire_grow {x : Cache} (hd : 0 < x.depth) (now : Int) : Grow x (x.expire now).1 := by
+  unfold expire; simp only
+  exact (expireLoop_GG now _ _ _ _ ⟨hd, Grow.refl x⟩).grow
+
+theorem BG.volume {a x : Cache} (h : BG a x) : BG a x.volume.1 := by
+  have hq := (Q4.refl x).volume
+  exact ⟨by rw [hq.depth]; exact h.pos, h.bi.of_core (core_volume x),
+    h.grow.trans (Grow.of_eq hq.files hq.created)⟩
+
+theorem GG.volume {a x : Cache} (h : GG a x) : GG a x.volume.1 := by
+  have hq := (Q4.refl x).volume
+  exact ⟨by rw [hq.depth]; exact h.pos, h.grow.trans (Grow.of_eq hq.files hq.created)⟩
+
+/-- the transaction body of one batch of the policy loop of `cull()` -/
+def delInBody (sel sel2 : String) (rows : List Row) : Cache → Body := fun s =>
+  { s := ((s.logSql sel).delIn (rows.map (·.rowid))).logSql sel2, out := .none, cleanup := rows.map (·.file) }
+
+theorem delInBody_q4 (sel sel2 : String) (rows : List Row) (x : Cache) : Q4 x (delInBody sel sel2 rows x).s :=
+  (((Q4.refl x).logSql sel).delIn _).logSql sel2
+
+/-- one batch of the policy loop of `cull()` inside a block -/
+theorem BG.tdelIn {a x : Cache} (h : BG a x) (sel sel2 : String) (rows : List Row)
+    (hp : ∀ r ∈ rows, r ∈ x.rows) : BG a (x.transact (delInBody sel sel2 rows)).1 := by
+  have hq := delInBody_q4 sel sel2 rows x
+  obtain ⟨q1, -⟩ := transact_inblock_q4 x h.pos (delInBody sel sel2 rows) none hq
+  obtain ⟨cl, hP, hS⟩ := h.bi
+  refine ⟨by rw [q1]; exact h.pos, ?_, h.grow.trans (transact_grow x h.pos _ none hq)⟩
+  apply transact_BI' _ h.pos
+  · exact hq
+  · left
+    refine ⟨rfl, cl, ?_, hS, ?_⟩
+    · show PI (fcore (((x.logSql sel).delIn (rows.map (·.rowid))).logSql sel2)) (rows.map (·.file) ++ cl)
+      simp only [fcore_logSql]
+      have := fPI_delIn (s := x.logSql sel) (cl := cl) (by fcore_simp; exact hP) rows hp
+      exact this.cl_congr (by intro f; simp [or_comm])
+    · intro f hf
+      have hf : some f ∈ rows.map (·.file) := hf
+      obtain ⟨r, hr, e⟩ := List.mem_map.1 hf
+      exact hP.ref_lt (c := fcore x) (hp r hr) e
+
+theorem cullLoop_BG {a : Cache} : ∀ (fuel : Nat) (s : Cache) (n : Nat), BG a s → BG a (cullLoop fuel s n).1 := by
+  intro fuel
+  induction fuel with
+  | zero => intro s n h; exact h
+  | succ k ih =>
+    intro s n h
+    unfold cullLoop
+    simp only
+    have hv := h.volume
+    split
+    · exact hv
+    split
+    · exact hv.tlog _
+    · apply ih
+      exact hv.tdelIn "selPolicy" "delPolicy" _ (fun r hr => selPolicy_mem hr)
+
+theorem cullLoop_GG {a : Cache} : ∀ (fuel : Nat) (s : Cache) (n : Nat), GG a s → GG a (cullLoop fuel s n).1 := by
+  intro fuel
+  induction fuel with
+  | zero => intro s n h; exact h
+  | succ k ih =>
+    intro s n h
+    unfold cullLoop
+    simp only
+    have hv := h.volume
+    split
+    · exact hv
+    split
+    · exact hv.tq _ ((Q4.refl _).logSql _)
+    · apply ih
+      exact hv.tq (delInBody "selPolicy" "delPolicy" _) (delInBody_q4 _ _ _ _)
+
+theorem cull_BG {x : Cache} (hd : 0 < x.depth) (h : BI x) (now : Int) : BG x (x.cull now).1 := by
+  rw [cull_eq]
+  split
+  · exact expireLoop_BG now _ _ _ _ (BG.start hd h)
+  · exact cullLoop_BG _ _ _ (expireLoop_BG now _ _ _ _ (BG.start hd h))
+
+theorem cull_grow {x : Cache} (hd : 0 < x.depth) (now : Int) : Grow x (x.cull now).1 := by
+  rw [cull_eq]
+  split
+  · exact (expireLoop_GG now _ _ _ _ ⟨hd, Grow.refl x⟩).grow
+  · exact (cullLoop_GG _ _ _ (expireLoop_GG now _ _ _ _ ⟨hd, Grow.refl x⟩)).grow
+
 end DC.Cache
